@@ -498,6 +498,48 @@ def check_case(ctx, drv, case):
     ctx.violation('vjp-model-mismatch-gradkeys', f'nn.vjp: cotangent structure {li["gvars"]} vs model {mo["gradkeys"]} on {where}', case, concrete=False)
 
 
+def check_custom_forward_only(ctx, case):
+  """nn.custom_vjp evaluated WITHOUT differentiation (apply, init, the whole apply under jax.jit): the value and the
+  mutable updates must be those of `fn`.  The user's forward rule here is observably different from `fn`: its primal is
+  offset by 1000 and it leaves a marker in a mutable collection — neither may show."""
+  shapes, args = case['primals'], case['args']
+  primals = build_tree(shapes, args)
+  c2 = dict(case, has_aux=False)
+  fy = user_fn(c2, y_only=True)
+  GV = lp.lf_python(case['grad_vars'])
+  mark_col = case.get('mark_col', 'stats')
+
+  def lifted_call(self, *ps):
+    def fwd(mdl, *qs):
+      y, vjp_fn = nn.vjp(fy, mdl, *qs, vjp_variables=GV)
+      if mdl.is_mutable_collection(mark_col):
+        mdl.put_variable(mark_col, 'fwd_mark', F(1))
+      return y + 1000, vjp_fn
+
+    def bwd(vjp_fn, y_t):
+      return jax.tree.map(lambda a: a * 7, tuple(vjp_fn(y_t)))
+
+    return nn.custom_vjp(fy, forward_fn=fwd, backward_fn=bwd, grad_vars=GV)(self, *ps)
+
+  L = make_cls('CustomF', lifted_call)
+  P = make_cls('CustomFP', lambda self, *ps: fy(self, *ps))
+  variables = full_vars(dict(case, placement='root'), None)
+  mutable = case['mutable']
+  canon = lambda out: jax.tree.map(to_int, out)
+  ctx.case(dict(case, sub='forward-only'))
+  ctx.count('transform', 'custom/forward-only')
+  runs = {
+    'apply': lambda M: apply_mod(M, variables, primals, mutable),
+    'jit(apply)': lambda M: jax.jit(lambda vs, *ps: apply_mod(M, vs, ps, mutable))(variables, *primals),
+    'init': lambda M: M().init_with_output(jax.random.key(0), *primals),
+  }
+  for how, thunk in runs.items():
+    a, b = lp.call(lambda: canon(thunk(L))), lp.call(lambda: canon(thunk(P)))
+    if a != b:
+      ctx.violation('custom-forward-value', f'nn.custom_vjp without differentiation ({how}): (value, updated collections) {a} but fn gives {b} — the forward rule (primal + 1000, marker in {mark_col!r}) must not be what runs, on {json.dumps(case)[:600]}', case)
+      return
+
+
 def check_custom_under_grad(ctx, case):
   """nn.custom_vjp under differentiation: the user's backward rule (x7) is what jax.grad sees, while the forward
   value stays that of fn."""
@@ -1030,6 +1072,8 @@ def gen_case(rng, kind):
 def run_case(ctx, drv, case):
   if case.get('kind') in ('vjp', 'jvp', 'vag', 'grad', 'custom'):
     check_case(ctx, drv, case)
+    if case['kind'] == 'custom':
+      check_custom_forward_only(ctx, case)
     if case['kind'] == 'custom' and case.get('under_grad'):
       check_custom_under_grad(ctx, case)
   elif case.get('kind') == 'multiscope':
